@@ -78,6 +78,9 @@ func ulpOK(dt ref.DT, got, exp float64, k int, num bool) bool {
 		}
 		return math.Signbit(got) == math.Signbit(exp)
 	}
+	if k == 0 {
+		return false
+	}
 	t := hx.ToTJ(ref.FromF(dt, []int{1}, exp)).T()
 	g := ref.FromF(dt, []int{1}, got)
 	kind, _ := hx.CompareT(g, t, hx.Ulp(k))
@@ -159,6 +162,9 @@ func lessAbs(a, b uint64) bool { return a < b }
 func tolFor(op string, dt ref.DT) int {
 	if op == "Sigmoid" || op == "Tanh" {
 		return 96
+	}
+	if op == "Relu" || op == "Abs" {
+		return 0 // exact (up to the sign of zero)
 	}
 	return 4
 }
@@ -246,14 +252,11 @@ func checkC10(c *hx.Checker) {
 			exp, _ := ref.Unary(k.op, x)
 			oc := &hx.OpCase{Op: k.op, Inputs: tjs(x), NOut: 1, Route: "op"}
 			cmp := hx.Ulp(tolFor(k.op, k.dt))
+			if tolFor(k.op, k.dt) == 0 {
+				cmp = hx.Num
+			}
 			c.Case(info, func() *hx.Violation {
-				v := judgeOp(oc, hx.DCompute, []*ref.T{exp}, cmp)
-				if v != nil && v.Kind == "wrong-value" && (k.op == "Relu" || k.op == "Abs") {
-					if v2 := judgeOp(oc, hx.DCompute, []*ref.T{exp}, hx.Num); v2 == nil || v2.Kind[:2] == "ok" {
-						return v2
-					}
-				}
-				return v
+				return judgeOp(oc, hx.DCompute, []*ref.T{exp}, cmp)
 			})
 		}
 	}
@@ -273,6 +276,9 @@ func checkC10(c *hx.Checker) {
 	for _, op := range unaryFloatOps {
 		for _, dt := range gateDTs(op, 0) {
 			cmp := hx.Ulp(tolFor(op, dt))
+			if tolFor(op, dt) == 0 {
+				cmp = hx.Num
+			}
 			shapes := box
 			if dt != ref.F32 {
 				shapes = sub
